@@ -76,7 +76,7 @@ def check_is_native(ctx, inst):
     for ty, f in zip(tys, native_fns):
         if f is None:
             continue
-        tab = fn_table(ctx, f)
+        tab = table_with_cases(ctx, f)
         d = "discr(%s)" % P_(f, 0)
         ok = True
         seen_true = False
@@ -121,7 +121,7 @@ def check_equal(ctx, inst, ty=None):
     ident = {"Token": "contract_addr", "NativeToken": "denom"}
     good = True
     true_regions = set()
-    for b, v, cs in fn_table(ctx, f):
+    for b, v, cs in table_with_cases(ctx, f):
         va = [x for x in ("Token", "NativeToken") if "%s in ['%s']" % (a, x) in cs]
         vb = [x for x in ("Token", "NativeToken") if "%s in ['%s']" % (b_, x) in cs]
         if (len(va) != 1 or len(vb) != 1) and v == ("const", "int", 0):
@@ -199,7 +199,8 @@ def check_transfer_ctor(ctx, inst):
             inst.fail("%s:transfer-ctor:exit" % inst.id, f.path, where, "non-literal success value: unrecognised-idiom")
             continue
         kinds = [x for x in ("Token", "NativeToken") if "%s in ['%s']" % (d, x) in cs]
-        msg = v[3][0][1]
+        from .selection import resolve as _resolve
+        msg = _resolve(v[3][0][1])       # `wasm_execute(..)?` modelled as Ok(WasmMsg::Execute{..}): fold the `?` on the literal
         if len(kinds) != 1:
             inst.fail("%s:transfer-ctor:region" % inst.id, f.path, where, "message built under conditions {%s}: unrecognised-idiom" % "; ".join(sorted(cs)))
             continue
@@ -310,3 +311,137 @@ def check_query_pool(ctx, inst):
     if inst.status == "pass":
         inst.fail("%s:query-pool:incomplete" % inst.id, f.path, f.span, "balance helper does not cover both asset kinds")
     return None
+
+
+# ---------------------------------------------------------------------------------------------------------------------------
+# case tables through small pure callees (trait-provided methods, multi-exit helpers)
+
+def _callee_for_cases(P, x, bind):
+    """The workspace function a call value lands in, for case expansion: plain private / public pure functions, provided
+    methods of a workspace trait (generic over Self) and — with a known Self binding — the impl a `<Self as Trait>::m`
+    call resolves to.  Returns (fn, self binding for calls inside fn) or None."""
+    if x[0] != "call" or not isinstance(x[3], str):
+        return None
+    home = P.fn(str(x[1])) or P.fn(str(x[1]).rsplit("#", 1)[0])
+    fr = None
+    if home is not None and home.body is not None and isinstance(x[2], int) and x[2] < len(home.body.blocks):
+        t = home.body.blocks[x[2]]["term"]
+        if t.get("k") == "call":
+            fr = (t.get("func") or {}).get("fn")
+    g = P.fn(x[3]) or P.fn(generic_path(x[3]))
+    self_ty = None
+    if fr and fr.get("trait") and (fr.get("krate") in ("haloswap", "halo_pair", "halo_factory", "halo_router", "bignumber")):
+        a0 = (fr.get("args") or [None])[0]
+        self_ty = bind.get(home.path) if a0 == "Self" and home is not None else a0
+        if self_ty:
+            impl = [h for h in P.fns.values() if h.body is not None and h.kind == "assoc_fn" and h.name == fr.get("name") and
+                    h.impl_self == self_ty and (h.impl_trait or "") == fr["trait"]]
+            if len(impl) == 1:
+                g = impl[0]
+    if g is None or g.body is None or g.derived or g.body.back_edges() or len(g.body.blocks) > 40:
+        return None
+    if g.crate not in ("haloswap", "halo_pair", "halo_factory", "halo_router"):
+        return None
+    if not common._effect_free(P, g, 0):
+        return None
+    return g, self_ty
+
+
+def _fold_cases(v):
+    """Evaluate is_some / is_none / == on literal Option and tuple aggregates (after a case substitution made them literal)."""
+    from .selection import resolve
+    v = resolve(v)
+    if not isinstance(v, tuple) or not v:
+        return v
+    if v[0] == "call" and isinstance(v[3], str):
+        args = tuple(_fold_cases(a) for a in v[4])
+        g = generic_path(v[3])
+        def opt_kind(a):
+            if a[0] == "agg" and a[1] == "adt" and str(a[2]).endswith("option::Option::Some"):
+                return "Some"
+            if a[0] == "agg" and a[1] == "adt" and str(a[2]).endswith("option::Option::None"):
+                return "None"
+            return None
+        if re.search(r"option::Option::is_(some|none)$", g) and len(args) == 1 and opt_kind(args[0]):
+            truth = (opt_kind(args[0]) == "Some") == g.endswith("is_some")
+            return ("const", "int", 1 if truth else 0)
+        if common.cmp_kind(v[3]) == "eq" and len(args) == 2:
+            a, b = args
+            if a[0] == "agg" and b[0] == "agg" and a[1] == b[1] == "tuple" and len(a[3]) == len(b[3]):
+                comps = [(x, y) for (_, x), (_, y) in zip(a[3], b[3])]
+            elif opt_kind(a) and opt_kind(b):
+                comps = [(a, b)]
+            else:
+                return ("call", v[1], v[2], v[3], args)
+            rest = []
+            for x, y in comps:
+                kx, ky = opt_kind(x), opt_kind(y)
+                if kx and ky:
+                    if kx != ky:
+                        return ("const", "int", 0)
+                    if kx == "Some":
+                        rest.append((x[3][0][1], y[3][0][1]))
+                else:
+                    rest.append((x, y))
+            if not rest:
+                return ("const", "int", 1)
+            if len(rest) == 1:
+                return ("call", v[1], v[2], "<T as std::cmp::PartialEq>::eq", rest[0])
+        return ("call", v[1], v[2], v[3], args)
+    return v
+
+
+def case_rows(ctx, f, max_rows=32):
+    """fn_table of f with calls to small pure workspace callees that *decide* (several exits, provided trait methods, impls
+    chosen by the Self type) expanded into their cases: [(exit bb of f, value, frozenset(condition strings))]."""
+    from .selection import replace
+    P = ctx.P
+    R0 = ctx.R
+
+    def table(g, R):
+        ctx.R = R
+        try:
+            return [(b, v, frozenset(cond_strings(ctx, common.control_conditions(P, g, b)))) for (b, i, cls, v) in common.exit_sites(P, g)]
+        finally:
+            ctx.R = R0
+
+    rows = [(b, v, cs, {f.path: f.impl_self}, R0) for (b, v, cs) in table(f, R0)]
+    out = []
+    steps = 0
+    while rows:
+        b, v, cs, bind, R = rows.pop(0)
+        steps += 1
+        if steps > 400 or len(out) + len(rows) > max_rows:
+            return None
+        v = _fold_cases(v)
+        target = None
+        for x in common.walk(v):
+            if x is v and False:
+                continue
+            hit = _callee_for_cases(P, x, bind) if x[0] == "call" else None
+            if hit is not None:
+                g, sty = hit
+                gt = None
+                if len(common.exit_sites(P, g)) > 1 or g.impl_trait or (g.j.get("trait_provided") if hasattr(g, "j") else False) or "Self" in (g.sig or ""):
+                    target = (x, g, sty)
+                    break
+        if target is None:
+            out.append((b, v, cs))
+            continue
+        x, g, sty = target
+        R2 = R.with_params(g.path, x[4])
+        bind2 = dict(bind)
+        bind2[g.path] = sty
+        for (b2, v2, cs2) in table(g, R2):
+            v2s = common.subst_params(v2, {("param", g.path, i): a for i, a in enumerate(x[4])})
+            rows.append((b, replace(v, x, v2s), frozenset(cs | cs2), bind2, R))
+    return out
+
+
+def table_with_cases(ctx, f):
+    """fn_table, or — when an exit value is a call that decides in a callee — the expanded case rows."""
+    base = fn_table(ctx, f)
+    if not any(v[0] == "call" and _callee_for_cases(ctx.P, v, {f.path: f.impl_self}) is not None for (b, v, cs) in base):
+        return base
+    rows = case_rows(ctx, f)
+    return rows if rows is not None else base
